@@ -395,7 +395,7 @@ carquet_status_t carquet_dictionary_decode_int32(
 
     /* Look up values (read as little-endian for big-endian compatibility) */
     for (int64_t i = 0; i < decoded; i++) {
-        if ((int32_t)indices[i] >= dict_count) {
+        if (indices[i] >= (uint32_t)dict_count) {
             free(indices);
             return CARQUET_ERROR_DECODE;
         }
@@ -448,7 +448,7 @@ carquet_status_t carquet_dictionary_decode_int64(
 
     /* Look up values (read as little-endian for big-endian compatibility) */
     for (int64_t i = 0; i < decoded; i++) {
-        if ((int32_t)indices[i] >= dict_count) {
+        if (indices[i] >= (uint32_t)dict_count) {
             free(indices);
             return CARQUET_ERROR_DECODE;
         }
@@ -501,7 +501,7 @@ carquet_status_t carquet_dictionary_decode_float(
 
     /* Look up values (read as little-endian for big-endian compatibility) */
     for (int64_t i = 0; i < decoded; i++) {
-        if ((int32_t)indices[i] >= dict_count) {
+        if (indices[i] >= (uint32_t)dict_count) {
             free(indices);
             return CARQUET_ERROR_DECODE;
         }
@@ -554,7 +554,7 @@ carquet_status_t carquet_dictionary_decode_double(
 
     /* Look up values (read as little-endian for big-endian compatibility) */
     for (int64_t i = 0; i < decoded; i++) {
-        if ((int32_t)indices[i] >= dict_count) {
+        if (indices[i] >= (uint32_t)dict_count) {
             free(indices);
             return CARQUET_ERROR_DECODE;
         }
